@@ -388,10 +388,56 @@ func sessionC09(r *vk.Run, rng *rand.Rand, wkr, idx int) {
 	} else if L > 0 && st.Current != nil {
 		want = []string{st.Current.Text}
 	}
-	s.Post("accept")
-	hist = append(hist, "accept")
+	// sometimes the query is first changed to something that matches nothing: the selection survives,
+	// there is no current line any more
+	finalQuery := string(ed.in)
+	if rng.Intn(4) == 0 {
+		finalQuery = "zzzqqq"
+		s.Post("change-query(" + finalQuery + ")")
+		hist = append(hist, "change-query("+finalQuery+")")
+		st2, ok := s.WaitQuiescent(30 * time.Second)
+		if !ok {
+			r.Inconclusive("no quiescence after the final query change: " + s.LastWait)
+			return
+		}
+		if st2.MatchCount != 0 {
+			r.Inconclusive("the no-match query matched something")
+			return
+		}
+		if len(sel.order) == 0 {
+			want = nil
+		}
+	}
+	// accept and its two variants: "same as accept except that" accept-non-empty does not exit when there
+	// is nothing to print, and accept-or-print-query then prints the query
+	ending := []string{"accept", "accept", "accept-non-empty", "accept-or-print-query"}[rng.Intn(4)]
+	s.Post(ending)
+	hist = append(hist, ending)
+	if ending == "accept-non-empty" && len(want) == 0 && nitems > 0 {
+		// must be ignored: the batch is consumed and fzf is still there
+		if !s.WaitConsumed(20 * time.Second) {
+			if _, exited := s.ExitCode(); exited {
+				fail("accept-non-empty ended the session although there is neither a selection nor a current line", nil, map[string]any{"stdout": string(s.Stdout())})
+			} else {
+				r.Inconclusive("accept-non-empty was not consumed within the watchdog")
+			}
+			return
+		}
+		time.Sleep(50 * time.Millisecond)
+		if _, exited := s.ExitCode(); exited {
+			fail("accept-non-empty ended the session although there is neither a selection nor a current line", nil, map[string]any{"stdout": string(s.Stdout())})
+			return
+		}
+		r.Count("accept_non_empty_ignored", 1)
+		s.Post("accept")
+		hist = append(hist, "accept")
+	}
 	rc, exited := s.WaitExit(20 * time.Second)
 	if !exited {
+		if ending != "accept" && len(want) > 0 {
+			fail(fmt.Sprintf("%s did not end the session although there is something to accept: %q", ending, want), nil, nil)
+			return
+		}
 		r.Inconclusive("accept did not end the session within the watchdog")
 		return
 	}
@@ -400,9 +446,15 @@ func sessionC09(r *vk.Run, rng *rand.Rand, wkr, idx int) {
 	expRc := 0
 	if len(want) == 0 {
 		expRc = 1
+		if ending == "accept-or-print-query" {
+			want, expRc = []string{finalQuery}, 0
+			if finalQuery == "" {
+				want = []string{""}
+			}
+		}
 	}
 	if !eqs(got, want) || rc != expRc {
-		fail(fmt.Sprintf("accept printed %q (exit %d), expected %q (exit %d)", got, rc, want, expRc), nil, map[string]any{"stdout": string(s.Stdout())})
+		fail(fmt.Sprintf("%s printed %q (exit %d), expected %q (exit %d)", ending, got, rc, want, expRc), nil, map[string]any{"stdout": string(s.Stdout())})
 		return
 	}
 	if idx == 0 {
